@@ -50,6 +50,8 @@ pub fn emit(k: &str, casts: &[(usize, i128)], mism: &[(i128, i64, i64)], checked
 
 
 def render(c, key, gen):
+    if "_module" in c:
+        return c["_module"]
     vs = c["vs"]
     repr_ty = c["repr"]
     names = [f"V{i}" for i in range(len(vs))]
@@ -173,10 +175,44 @@ def run(chk, tier, seed, replay):
                 continue
             mods.append((key, render(c, key, g)))
             meta[key] = (c, g)
+    # discriminants at the ends of every repr type's range (outside TLC's 32-bit integers, hence generated here; the
+    # oracle is the same: rustc's own `as` cast): `A = MIN, B, C = MAX - 1, D` and the integers around them
+    ext_keys = []
+    for t in ["u8", "i8", "u16", "i16", "u32", "i32", "u64", "i64", "u128", "i128", "usize", "isize"]:
+        key = f"extremes:{t}"
+        if replay and json.load(open(replay))["key"] != key:
+            continue
+        signed = t.startswith("i")
+        probes = ["MIN", "MIN + 1", "MIN + 2", "MAX - 2", "MAX - 1", "MAX", "0", "1", "2"] + (["-1", "-2"] if signed else [])
+        pl = ", ".join(f"(<{t}>::{x})" if x[0] == "M" else f"({x} as {t})" for x in probes)
+        mod = f"""use super::*;
+#[derive(derive_more::TryFrom, Debug, PartialEq, Clone, Copy)]
+#[try_from(repr)]
+#[repr({t})]
+pub enum En {{ A = <{t}>::MIN, B, C = <{t}>::MAX - 1, D }}
+pub fn run() {{
+    let all = [En::A, En::B, En::C, En::D];
+    let mut bad: Vec<String> = vec![];
+    let mut checked = 0u64;
+    for n in [{pl}] {{
+        let want = all.iter().copied().find(|e| (*e as {t}) == n);
+        checked += 1;
+        match (<En as core::convert::TryFrom<{t}>>::try_from(n), want) {{
+            (Ok(g), Some(w)) if g == w => {{}}
+            (Err(e), None) if e.input == n => {{}}
+            (got, want) => bad.push(format!("{{}}: got {{:?}}, the cast says {{:?}}", n, got.map_err(|e| e.input), want)),
+        }}
+    }}
+    println!("OBS {{{{\\"k\\": {{:?}}, \\"casts\\": [], \\"mismatches\\": {{}}, \\"first\\": {{:?}}, \\"checked\\": {{}}, \\"bad_err_payload\\": 0}}}}",
+             {json.dumps(key)}, bad.len(), bad.iter().take(4).collect::<Vec<_>>(), checked);
+}}"""
+        mods.append((key, mod))
+        ext_keys.append(key)
+        meta[key] = ({"vs": [{"disc": {"op": "lit"}}], "discs": [], "extremes": t, "_module": mod}, "")
     if not replay:
         # rustc cannot take an unbounded number of probe modules: the <= 2-variant enums, then a seeded share
         keep = vlib.cap_cases([k for k, _ in mods], seed, 12000 if tier == "quick" else 30000,
-                              keep=lambda k: len(meta[k][0]["vs"]) <= 2)
+                              keep=lambda k: len(meta[k][0]["vs"]) <= 2 or k.startswith("extremes:"))
         mods = [m for m in mods if m[0] in keep]
     log(f"[C12] {len(mods)} enums")
     nsh = 4 if tier == "quick" else 12
